@@ -530,6 +530,8 @@ def run(c, prog):
     rule_name(c, prog)
     from . import C02_type
     C02_type.run(c, prog)
+    from . import C02_tok
+    C02_tok.run(c, prog)
     from .C17 import rule_text
     # UniqueId / Ref text codec (shared with C17.text)
     before = len(c.violations)
